@@ -26,7 +26,8 @@ def gen_cfg(i: int) -> semgen.GenCfg:
         unanchored_patterns=(i % 6 == 1),
         nonintegral_int_bounds=(i % 9 == 4),
         all_of=(i % 3 != 0),
-        boost=("allOf" if i % 4 == 1 else ("union" if i % 4 == 3 else "")),
+        boost=("disc" if i % 8 == 7 else ("allOf" if i % 4 == 1 else ("union" if i % 4 == 3 else ""))),
+        discriminators=(i % 2 == 1),
     )
 
 
@@ -138,6 +139,10 @@ def campaign_model(ck: Check, n: int) -> None:
         for inst in vi[:3]:
             muts += semgen.mutations(doc, inst)
         insts = [(x, True) for x in vi] + [(m.instance, False) for m in muts]
+        if semgen.has_discriminator(doc):
+            # jsonschema-valid values whose tag does not select their branch: invalid under the discriminator
+            for inst in vi[:4]:
+                insts += [(x, False) for x in semgen.disc_invalid_variants(doc, inst)]
         try:
             rsx = semlean.regex_sx(doc, [x for x, _ in insts])
             enc = [(semlean.json_sx(x), lab, x) for x, lab in insts]
@@ -154,7 +159,8 @@ def campaign_model(ck: Check, n: int) -> None:
                 reqs.append(f"sem.tr {st} {r} top {ssx}")
                 meta.append(("tr", doc, st, r, None))
                 for dn, ds in (doc.get("definitions") or {}).items():
-                    reqs.append(f"sem.tr {st} {r} top {semlean.schema_sx(ds, top=True)}")
+                    # the class of a definition after the discriminator pass over the whole document
+                    reqs.append(f"sem.trdef {st} {r} {dsx} {ssx} {semlean.hx(dn)}")
                     meta.append(("tr", doc, st, r, dn))
             for r in ("contype", "field"):
                 for jx, lab, x in enc:
@@ -236,6 +242,9 @@ def campaign_model(ck: Check, n: int) -> None:
                 if comma_pattern_in_union(doc):
                     cc.hit("known:comma_in_pattern_in_union")  # D33: the rendered hint is mangled after stage 1
                     continue
+                if st == "v1" and semgen.has_discriminator(doc) and semgen.disc_const_tag(doc):
+                    cc.hit("known:v1_const_tag_member")  # D40: Field(..., const=True) written after stage 1
+                    continue
                 ck.disagree(cc, {"doc": doc, "instance": x, "style": st, "routing": r}, tri, "accept" if ok else "reject")
             elif len(cc.samples) < 2 and not ok:
                 cc.samples.append({"doc": doc, "instance": x, "style": st, "routing": r, "verdict": tri})
@@ -249,6 +258,8 @@ def campaign_model(ck: Check, n: int) -> None:
 def causes_for(doc: dict, inst: Any, style: str, oracle: str = "valid_rejected") -> str:
     if oracle == "dump_mismatch" and style == "v1" and union_str_before_number(doc):
         return "v1_union_left_to_right"
+    if style == "v1" and semgen.has_discriminator(doc) and semgen.disc_const_tag(doc):
+        return "v1_const_tag_member"
     if comma_pattern_in_union(doc):
         return "comma_in_pattern_in_union"
     if nonintegral_exclusive_on_integer(doc):
@@ -271,18 +282,22 @@ def _drop_absent_nones(dumped: Any, inst: Any, declared_only: bool = True) -> An
 
 
 def oracle_doc(ck: Check, camp, doc: dict, target: tuple, insts: list | None = None) -> None:
-    """target = ("v1"|"v2", routing) or (kind,) for dataclass / TypedDict"""
-    if len(target) == 2:
-        style, routing = target
+    """target = ("v1"|"v2", routing), ("v1"|"v2", routing, "openapi") (the same document sent as an
+    OpenAPI specification) or (kind,) for dataclass / TypedDict"""
+    ift = "jsonschema"
+    if len(target) >= 2:
+        style, routing = target[0], target[1]
         kind = semrun.STYLE_MODEL[style]
         opts = semrun.ROUTING_OPTS[routing]
+        if len(target) == 3:
+            ift = target[2]
     else:
         kind = target[0]
         style, routing, opts = "v2", "contype", {}
-    label = f"{style}/{routing}" if len(target) == 2 else kind
-    base = {"target": label, "style": style if len(target) == 2 else kind, "routing": routing}
+    label = (f"{style}/{routing}" + ("" if ift == "jsonschema" else f"/{ift}")) if len(target) >= 2 else kind
+    base = {"target": label, "style": style if len(target) >= 2 else kind, "routing": routing}
     inp = {"doc": doc, "target": list(target)}
-    b = semrun.build(doc, style, opts, kind=kind)
+    b = semrun.build(doc, style, opts, kind=kind, input_file_type=ift)
     camp.evaluations += 1
     camp.hit(f"target:{label}")
     if insts is None:
@@ -319,7 +334,13 @@ def oracle_doc(ck: Check, camp, doc: dict, target: tuple, insts: list | None = N
             if kind == "dataclasses.dataclass":
                 d = _drop_absent_nones(d, inst)
             if semgen.canon(d) != semgen.canon(inst):
-                ck.fail({**base, "oracle": "dump_mismatch", "mechanism": "value_changed", "cause": causes_for(doc, inst, style, "dump_mismatch")}, {**inp, "instance": inst}, f"dump by wire name differs: {semgen.canon(d)[:300]} vs instance {semgen.canon(inst)[:300]}")
+                c1 = causes_for(doc, inst, style, "dump_mismatch")
+                und = semgen.undeclared_members(doc, semlean.body_of(doc), inst)
+                if c1 == "none" and und:
+                    # a member the (open) schema does not declare — e.g. the tag of a discriminated alternative
+                    ck.fail({**base, "oracle": "dump_mismatch", "mechanism": "undeclared_member_dropped", "cause": f"undeclared_member_ap_{sorted(und)[0]}"}, {**inp, "instance": inst}, f"undeclared member lost on dump: {semgen.canon(d)[:300]} vs instance {semgen.canon(inst)[:300]}")
+                else:
+                    ck.fail({**base, "oracle": "dump_mismatch", "mechanism": "value_changed", "cause": c1}, {**inp, "instance": inst}, f"dump by wire name differs: {semgen.canon(d)[:300]} vs instance {semgen.canon(inst)[:300]}")
         for inst, ap in extra_cases:
             camp.evaluations += 1
             camp.hit(f"undeclared_member:{ap}")
@@ -388,10 +409,78 @@ def focused_docs() -> list[tuple[str, dict]]:
             },
         )
     )
+    docs += disc_docs()
     docs.append(("nullable", {"title": "Model", "type": "object", "properties": {"a": {"type": ["string", "null"], "maxLength": 3}, "b": {"type": ["integer", "null"], "minimum": 0}, "c": {"anyOf": [{"type": "string"}, {"type": "null"}]}}, "required": ["a"]}))
     docs.append(("alias", {"title": "Model", "type": "object", "properties": {"kebab-name": {"type": "integer"}, "class": {"type": "string"}, "with space": {"type": "boolean"}, "1st": {"type": "number"}}, "required": ["kebab-name", "class"]}))
     docs.append(("dict", {"title": "Model", "type": "object", "properties": {"m": {"type": "object", "additionalProperties": {"type": "integer", "minimum": 0}}, "n": {"type": "object", "additionalProperties": {"$ref": "#/definitions/P"}}}, "definitions": {"P": {"type": "object", "properties": {"x": {"type": "number"}}, "required": ["x"]}}}))
     return docs
+
+
+def disc_docs() -> list[tuple[str, dict]]:
+    """discriminators: several mapping keys selecting the SAME definition, no mapping at all (every
+    definition is selected by its own name), a tag property that needs an alias, the union as array item
+    and as a definition of its own"""
+    R = "#/definitions/"
+
+    def pet(tag_prop: str, extra: str, ty: str, tag_schema: dict | None = None, **kw) -> dict:
+        props = {tag_prop: tag_schema or {"type": "string"}, extra: {"type": ty}}
+        return {"type": "object", "properties": props, "required": [tag_prop, extra], **kw}
+
+    def union(key: str, prop: str, names: list[str], mapping: dict | None) -> dict:
+        d: dict = {"propertyName": prop}
+        if mapping is not None:
+            d["mapping"] = {k: R + v for k, v in mapping.items()}
+        return {key: [{"$ref": R + n} for n in names], "discriminator": d}
+
+    out = []
+    many = {"cat": "Cat", "dog": "Dog", "puppy": "Dog", "lizard": "Lizard", "gecko": "Lizard"}
+    out.append(
+        (
+            "discriminator_multikey",
+            {
+                "title": "Model",
+                "type": "object",
+                "properties": {"name": {"type": "string"}, "pet": union("oneOf", "pet-type", ["Cat", "Dog", "Lizard"], many)},
+                "required": ["name"],
+                "definitions": {
+                    "Cat": pet("pet-type", "lives", "integer", additionalProperties=False),
+                    "Dog": pet("pet-type", "bark", "boolean", additionalProperties=False),
+                    "Lizard": pet("pet-type", "scales", "boolean", additionalProperties=False),
+                },
+            },
+        )
+    )
+    out.append(
+        (
+            "discriminator_multikey_places",
+            {
+                "title": "Model",
+                "type": "object",
+                "properties": {"pets": {"type": "array", "items": union("anyOf", "kind", ["Cat", "Dog"], {"dog": "Dog", "cat": "Cat", "puppy": "Dog", "kitten": "Cat"})}, "best": {"$ref": R + "Pet"}},
+                "required": ["pets"],
+                "definitions": {
+                    "Cat": pet("kind", "lives", "integer"),
+                    "Dog": pet("kind", "bark", "boolean", {"type": "string", "enum": ["dog", "puppy"]}),
+                    "Fish": pet("kind", "fins", "integer"),
+                    "Bird": pet("kind", "wings", "integer"),
+                    "Pet": union("oneOf", "kind", ["Fish", "Bird"], {"fish": "Fish", "bird": "Bird", "parrot": "Bird"}),
+                },
+            },
+        )
+    )
+    out.append(
+        (
+            "discriminator_implicit",
+            {
+                "title": "Model",
+                "type": "object",
+                "properties": {"pet": union("oneOf", "class", ["Cat", "Dog"], None)},
+                "required": ["pet"],
+                "definitions": {"Cat": pet("class", "lives", "integer"), "Dog": {"type": "object", "properties": {"bark": {"type": "boolean"}}, "required": ["bark"]}},
+            },
+        )
+    )
+    return out
 
 
 def deep_instances(doc: dict, label: str) -> list:
@@ -417,7 +506,10 @@ def campaign_focused(ck: Check) -> None:
             ck.infra_errors.append(f"focused document {label} has no valid instance")
         for t in TARGETS:
             oracle_doc(ck, camp, doc, t, insts)
-        if label != "alias":
+        if label.startswith("discriminator"):
+            for t in (("v2", "contype", "openapi"), ("v1", "contype", "openapi")):
+                oracle_doc(ck, camp, doc, t, insts)
+        if label not in ("alias", "discriminator_multikey", "discriminator_implicit"):
             oracle_doc(ck, camp, doc, ("dataclasses.dataclass",), insts)
         oracle_doc(ck, camp, doc, ("typing.TypedDict",), insts)
     camp.wall_s = time.time() - t0
@@ -435,6 +527,8 @@ def campaign_random(ck: Check, n: int) -> None:
         insts = semgen.valid_instances(doc)
         for t in TARGETS:
             oracle_doc(ck, camp, doc, t, insts)
+        if "discriminator" in feats and i % 4 == 3:
+            oracle_doc(ck, camp, doc, ("v2", "contype", "openapi"), insts)
         if i % 2 == 0:
             cfg2 = gen_cfg(i)
             cfg2.alias_names = False
